@@ -282,22 +282,24 @@ func (i *Interpreter) directorBackendRandom(dc *value.DirectorConfig) (*value.Ba
 			continue
 		}
 
-		lottery := make([]int, 1000)
-		var current int
+		// Note that sum of the weights is not limited, the lottery must be able to hold all of them
+		var lottery []int
 		for index, v := range dc.Backends {
 			// Skip if backend is unhealthy
 			if !v.Backend.Healthy.Load() {
 				continue
 			}
 			for i := 0; i < v.Weight; i++ {
-				lottery[current] = index
-				current++
+				lottery = append(lottery, index)
 			}
+		}
+		// All healthy backends have zero weight, nothing to draw
+		if len(lottery) == 0 {
+			return nil, ErrQuorumWeightNotReached
 		}
 
 		rand.New(rand.NewSource(time.Now().Unix()))
-		lottery = lottery[0:current]
-		item := dc.Backends[lottery[rand.Intn(current)]]
+		item := dc.Backends[lottery[rand.Intn(len(lottery))]]
 
 		return item.Backend, nil
 	}
